@@ -304,6 +304,24 @@ fn check(seq: &Seq, as_call: bool, st: &mut Stats) {
         ));
         return;
     }
+    // the context-free form of the same tree (no user function there): the value of evaluation in a fresh context
+    if !as_call && log_ref.is_empty() && !src.contains("f(") {
+        let r = guarded(|| tree.eval());
+        st.evaluations += 1;
+        let ok = match &r {
+            Ok(r) => result_matches(&rref, r),
+            Err(_) => false,
+        };
+        if !ok {
+            st.violation(mk(
+                "context-free-value-mismatch",
+                format!("Node::eval(): {}", describe(&rref)),
+                match &r { Ok(x) => res_dbg(x), Err(p) => format!("panic at {}: {}", p.location, p.message) },
+            ));
+            return;
+        }
+        st.count("context-free-evaluations");
+    }
     // "a chain ending in `;` evaluates to the empty value": the typed accessor for exactly that value
     // must accept the sequence and apply the same effects
     if matches!(&rref, Ok(RV::Empty)) {
